@@ -428,7 +428,7 @@ ComponentPtr Component::clone() const
     c->setMath(math());
 
     if (isImport()) {
-        c->setImportSource(importSource());
+        c->setImportSource(importSource()->clone());
     }
 
     c->setImportReference(importReference());
